@@ -20,6 +20,7 @@
 #include <atomic>
 #include <cstring>
 #include <iostream>
+#include <limits>
 #include <optional>
 #include <sstream>
 #include <string>
@@ -52,6 +53,7 @@ static std::size_t curve_len(const std::vector<u64> & s) {
 }
 static inline void fnv(u64 & h, float x) {
   std::uint32_t b; std::memcpy(&b, &x, 4);
+  if (x != x) b = 0x7fc00000u;   // one canonical NaN: which operand's payload an arithmetic NaN inherits is up to the compiler
   for (int k = 0; k < 4; ++k) { h ^= (b >> (8 * k)) & 0xffu; h *= 1099511628211ull; }
 }
 
@@ -66,23 +68,33 @@ template <int I, std::size_t N> struct Run {
   static const typename S::owning_data_t & layer_of(const F & f) {
     if constexpr (I == 0) return f.backend(); else return f.backend().get_backend();
   }
-  static F make(const std::vector<u64> & sz) {
-    typename S::configuration_t cfg;
+  // The field under test is obtained by the library's converting constructor from a row-major field that was filled
+  // through ITS views: no view of the field under test exists before the threads start (a lazily initialised member of
+  // the owning data would be initialised by the first concurrent views).
+  using SA = typename layer<0, vector::vector_d<std::size_t, N>, A>::type;
+  using BA = typename interp<I, SA>::type;
+  static F make(const std::vector<u64> & sz, bool nans = false) {
+    typename SA::configuration_t cfg;
     for (std::size_t k = 0; k < N; ++k) cfg[k] = sz[k];
-    std::size_t len = LAY == 0 ? prod(sz) : curve_len(sz);
-    auto build = [&]() {
-      if constexpr (I == 0) return F(make_parameter_pack(std::move(cfg), typename A::configuration_t{len}));
-      else return F(make_parameter_pack(typename B::configuration_t{}, std::move(cfg), typename A::configuration_t{len}));
-    };
-    F f = build();
-    LView lv(layer_of(f));
     std::size_t n = prod(sz);
-    for (std::size_t k = 0; k < n; ++k) {
-      typename S::contravariant_input_t::vector_t c; std::size_t r = k;
-      for (std::size_t d = N; d-- > 0;) { c[d] = r % sz[d]; r /= sz[d]; }
-      lv.at(c)[0] = static_cast<float>(1000 + k);
+    auto build = [&]() {
+      if constexpr (I == 0) return field<BA>(make_parameter_pack(std::move(cfg), typename A::configuration_t{n}));
+      else return field<BA>(make_parameter_pack(typename BA::configuration_t{}, std::move(cfg), typename A::configuration_t{n}));
+    };
+    field<BA> src = build();
+    {
+      const typename SA::owning_data_t * lo;
+      if constexpr (I == 0) lo = &src.backend(); else lo = &src.backend().get_backend();
+      typename SA::non_owning_data_t lv(*lo);
+      for (std::size_t k = 0; k < n; ++k) {
+        typename SA::contravariant_input_t::vector_t c; std::size_t r = k;
+        for (std::size_t d = N; d-- > 0;) { c[d] = r % sz[d]; r /= sz[d]; }
+        // a few NaN samples on request (lookups must not write: a reader that "repairs" a cell races with other readers)
+        lv.at(c)[0] = (nans && k % 5 == 3) ? std::numeric_limits<float>::quiet_NaN() : static_cast<float>(1000 + k);
+      }
     }
-    return f;
+    if constexpr (LAY == 0) return src;
+    else return F(src);
   }
   static u64 exec(const std::vector<Act> & prog, const View & v, const LView & lv) {
     u64 h = 1469598103934665603ull;
@@ -108,7 +120,7 @@ template <int I, std::size_t N> struct Run {
   static std::string go2(const std::vector<u64> & sz, const std::vector<u64> & sz2, std::size_t T, std::size_t reps, const Progs & progs) {
     std::ostringstream os;
     {
-      F f = make(sz); F g = make(sz2);
+      F f = make(sz, true); F g = make(sz2, true);
       os << "seq";
       for (std::size_t t = 0; t < T; ++t) {
         const F & x = (t % 2) ? g : f;
@@ -122,7 +134,7 @@ template <int I, std::size_t N> struct Run {
       std::atomic<bool> start{false};
       std::vector<std::thread> th;
       // the fields are built by the threads that use them, concurrently with the other field's lookups
-      F f = make(sz);
+      F f = make(sz, true);
       std::optional<F> g;
       for (std::size_t t = 0; t < T; ++t) {
         th.emplace_back([&, t]() {
@@ -134,7 +146,7 @@ template <int I, std::size_t N> struct Run {
         });
       }
       while (ready.load() < T) std::this_thread::yield();
-      g.emplace(make(sz2));
+      g.emplace(make(sz2, true));
       start.store(true, std::memory_order_release);
       for (auto & x : th) x.join();
       os << " | conc";
